@@ -219,12 +219,18 @@ func cmdCheck(args []string) int {
 	defer os.RemoveAll(dir)
 	var jobs []job
 	var engineErrs []string
+	var mismatch []*Obligation
 	nfun := 0
 	var funcsUnder []string
 	for _, k := range keys {
 		res := v.verifyFunction(k)
 		if res.Err != "" {
-			engineErrs = append(engineErrs, k+": "+res.Err)
+			// The contract no longer fits the code (renamed variable, changed loop structure, missing function...):
+			// its obligations, which are discharged on the unchanged tree, cannot even be generated. Reported as a
+			// failed obligation "<func>#contract-applies".
+			o := &Obligation{Name: k + "#contract-applies", Func: k, Kind: "contract-applies", Props: []string{*prop},
+				Text: "the contract of " + k + " can be applied to the function's current code", Status: "unknown", Output: res.Err}
+			mismatch = append(mismatch, o)
 			continue
 		}
 		nfun++
@@ -293,6 +299,8 @@ func cmdCheck(args []string) int {
 	violations := 0
 	var knownHit []string
 	var openFailed []string
+	failed = append(failed, mismatch...)
+	nObl += len(mismatch)
 	for _, o := range failed {
 		if kf := matchKnown(known, *prop, o.Name); kf != nil {
 			fmt.Printf("KNOWN-FINDING: property=%s %s %s\n", *prop, o.Name, kf.What)
